@@ -32,19 +32,21 @@
 (*                      by this copy lacks a (selected, hosted) child      *)
 (*  C04:tag-other       the requested tag resolves to something that is    *)
 (*                      neither its old value nor the source digest        *)
-(*  C04:tag-early       the requested tag (top digest) is written while    *)
-(*                      the required closure is not yet complete           *)
 (*  C04:write-after-tag content is written after the requested tag         *)
-(*  C04:tag-moved-on-failure  result err, the tag differs from before and   *)
-(*                      this is not the completed final write              *)
+(*                      (so a failure before that final write leaves the   *)
+(*                      tag as it was: the tag only ever changes through   *)
+(*                      the final write, which tag-other and child-missing *)
+(*                      constrain)                                         *)
 (*  C14:get-present     source GET of a blob the target repository had     *)
 (*  C14:twice           a blob fetched or pushed more than once            *)
 (*  C14:no-mount        same registry, mount granted, yet bytes moved      *)
-(*  C14:retag           same repository: a blob request, or not exactly    *)
-(*                      one manifest PUT                                   *)
+(*  C14:retag           same repository: a blob request, or (without the   *)
+(*                      force-recursive option) not exactly one manifest   *)
+(*                      PUT                                                *)
 (*  C14:identical       identical image already at the target, yet a write *)
-(* C14 is evaluated on fault-free runs that returned ok (its quantifier    *)
-(* ranges over inputs and configurations, not over faults).                *)
+(* C03 and C14 are evaluated on runs without injected fault, cancellation  *)
+(* or death (their quantifiers range over inputs, configurations and       *)
+(* schedules, not over faults); C04 on every run.                          *)
 (*                                                                         *)
 (* Reading of the statements where they leave room (see design.d):         *)
 (*  - a manifest's "children" are its descriptors (config, layers,         *)
@@ -92,6 +94,7 @@ Derived == {p[1] : p \in {q \in mkind : q[2] = "derived"}}
 Root == hdr.root
 Tagged == hdr.tagged = 1
 On(f) == f = 1
+FaultFree == hdr.faultfree = 1
 
 \* ---------------------------------------------------------------- children
 \* descriptors that have to be at the target before the manifest (C04)
@@ -135,9 +138,10 @@ Complete(st, st0, trust) ==
 \* the identical image (with everything the options ask for) is at the target already
 Identical == Complete(init0, init0, FALSE)
 
-\* the requested tag (or, for a copy to a digest, the top manifest) has been set by this copy
-Moved(st) == IF Tagged THEN TagOf(st, "T") # TagOf(init0, "T")
-             ELSE Root \in st.m /\ Root \notin init0.m
+\* the requested tag has been set by this copy.  (For a copy to a digest reference the final write
+\* is the PUT of the top manifest to that reference, an event, see PWrite: the top manifest may
+\* legitimately appear earlier when it is also the target of a digest tag below itself.)
+Moved(st) == Tagged /\ TagOf(st, "T") # TagOf(init0, "T")
 
 \* ------------------------------------------------------------- latching
 First(checks) ==
@@ -153,7 +157,6 @@ First(checks) ==
 StoreChecks(st, w, contentWrite) ==
   << <<"C04", \E m \in w : ~(Kids(m) \subseteq Present(st)), "C04:child-missing">>,
      <<"C04", Tagged /\ TagOf(st, "T") \notin {TagOf(init0, "T"), Root}, "C04:tag-other">>,
-     <<"C04", Moved(st) /\ ~Complete(st, init0, TRUE), "C04:tag-early">>,
      <<"C04", tagMoved /\ contentWrite, "C04:write-after-tag">> >>
 
 \* ------------------------------------------------------------- actions
@@ -194,12 +197,14 @@ PReq(side, class, n, code, data) ==
 
 \* a request that wrote to the target; s is the raw target store right after it.
 \* pn: for a manifest PUT the name of the body's digest; fb: PUT to a referrers fall-back tag
-PWrite(side, class, n, code, data, pn, fb, s) ==
+\* top: for a copy to a digest reference, this is the PUT of the top manifest to that reference
+PWrite(side, class, n, code, data, pn, fb, istag, s) ==
   LET w == written \cup (s.m \ init0.m) \cup (IF class = "manifest_put" /\ code = 201 THEN {pn} ELSE {})
       content == ~(class = "manifest_put" /\ fb = 1)
+      top == ~Tagged /\ class = "manifest_put" /\ code = 201 /\ istag = 0 /\ pn = Root
   IN /\ cur' = s
      /\ written' = w
-     /\ tagMoved' = (tagMoved \/ Moved(s))
+     /\ tagMoved' = (tagMoved \/ Moved(s) \/ top)
      /\ gets' = gets
      /\ commits' = IF (class = "upload_put" /\ code = 201) \/ (class = "upload_post" /\ code = 201 /\ data > 0)
                    THEN Append(commits, n) ELSE commits
@@ -219,15 +224,14 @@ PSnap(s) ==
      /\ bad' = First(StoreChecks(s, w, new # {}))
      /\ Same(<<hdr, mkind, edges, refs, dtags, init0, gets, commits, nBlobReq, nManPut, nWrites, res>>)
 
-FaultFree == hdr.faultfree = 1
 C14Checks(s) ==
   LET bl == Range(gets) \cup Range(commits)
       ident == Identical
   IN << <<"C14", \E b \in Range(gets) : b \in init0.b, "C14:get-present">>,
         <<"C14", \E b \in bl : Count(gets, b) > 1 \/ Count(commits, b) > 1, "C14:twice">>,
         <<"C14", On(hdr.mountok) /\ bl # {}, "C14:no-mount">>,
-        <<"C14", On(hdr.samerepo) /\ (nBlobReq > 0 \/ nManPut > 1 \/ (~ident /\ nManPut # 1)
-                                       \/ (ident /\ ~On(hdr.force) /\ nManPut # 0)), "C14:retag">>,
+        <<"C14", On(hdr.samerepo) /\ (nBlobReq > 0 \/ (~On(hdr.force) /\ nManPut # (IF ident THEN 0 ELSE 1))),
+          "C14:retag">>,
         <<"C14", ident /\ ~On(hdr.force) /\ (nWrites > 0 \/ s # init0), "C14:identical">> >>
 
 \* ImageCopy returned; s is the raw target store at that moment
@@ -239,10 +243,9 @@ PResult(ok, s) ==
      /\ written' = w
      /\ tagMoved' = (tagMoved \/ Moved(s))
      /\ bad' = First(StoreChecks(s, w, new # {}) \o
-                     << <<"C03", ok = 1 /\ ~Complete(s, init0, TRUE), "C03:incomplete">>,
-                        <<"C03", ok = 1 /\ (Req(init0, TRUE) \cap s.x) # {}, "C03:corrupt">>,
-                        <<"C04", ok = 0 /\ Tagged /\ TagOf(s, "T") # TagOf(init0, "T") /\
-                                 ~(TagOf(s, "T") = Root /\ Complete(s, init0, TRUE)),
+                     << <<"C03", ok = 1 /\ FaultFree /\ (Req(init0, TRUE) \cap s.x) # {}, "C03:corrupt">>,
+                        <<"C03", ok = 1 /\ FaultFree /\ ~Complete(s, init0, TRUE), "C03:incomplete">>,
+                        <<"C04", ok = 0 /\ Tagged /\ TagOf(s, "T") \notin {TagOf(init0, "T"), Root},
                           "C04:tag-moved-on-failure">> >>)
      /\ Same(<<hdr, mkind, edges, refs, dtags, init0, gets, commits, nBlobReq, nManPut, nWrites>>)
 
@@ -254,7 +257,7 @@ PFinal(s) ==
      /\ written' = w
      /\ tagMoved' = (tagMoved \/ Moved(s))
      /\ bad' = First(StoreChecks(s, w, new # {}) \o
-                     << <<"C03", res = "ok" /\ ~Complete(s, init0, TRUE), "C03:incomplete">> >> \o
+                     << <<"C03", res = "ok" /\ FaultFree /\ ~Complete(s, init0, TRUE), "C03:incomplete">> >> \o
                      (IF res = "ok" /\ FaultFree THEN C14Checks(s) ELSE <<>>))
      /\ Same(<<hdr, mkind, edges, refs, dtags, init0, gets, commits, nBlobReq, nManPut, nWrites, res>>)
 
